@@ -547,10 +547,12 @@ pub fn encode_cases(r: &mut Rng, count: usize) -> Vec<String> {
             _ => {
                 if r.chance(1, 2) {
                     // DISCONNECT
-                    match r.below(3) {
+                    match r.below(4) {
                         0 => { base.n(0).n(0); }
                         1 => { base.n(1).n(*r.pick(&[0u64, 4, 0x80, 0x93, 0x05, 0xff])).n(0); }
-                        _ => { base.n(1).n(*r.pick(&[0u64, 4, 0x80])).n(1).props(&rand_props(r, 3)); }
+                        2 => { base.n(1).n(*r.pick(&[0u64, 4, 0x80])).n(1).props(&rand_props(r, 3)); }
+                        // Disconnect::success().with_properties(..): the builder supplies the reason
+                        _ => { base.n(0).n(1).props(&rand_props(r, 3)); }
                     }
                     e.n(8);
                 } else {
